@@ -8,7 +8,8 @@ RULE = ("matrix over valid SPEC-generated Valve servers: all 9 toggle pairs x se
         "challenge-then-silent, compressed split that does not decompress (a failure of a kind other than the packet kinds)} for players and for rules x app-id relation (main / dedicated / other id / no expectation; "
         "from the base case's engine and server id) x check on/off. The oracle derives the expected response from the "
         "fault-free one: skipped or failed-Try sections absent, rest intact; failed Enforce = that failure; BadGame exactly "
-        "on a foreign id with the check on; request kinds seen on the wire must match. Non-trivial = a delivery received.")
+        "on a foreign id with the check on; request kinds seen on the wire must match. Unreal 2: 9 toggle pairs x {valid, silent, "
+        "malformed, last record cut short after a well-formed prefix} for rules and for players. Non-trivial = a delivery received.")
 ASSUMPTIONS = ["timeouts are scripted deliveries (silence)"]
 TRUSTED = ["hand-written Lean model of maybe_gather!/get_response, checked against the code on every run"]
 
@@ -140,6 +141,78 @@ def run(rep, tier, seed, replay=None):
                 out.append(("toggle-response:valve", f"toggles {tp}{tr} outcomes {op}/{orr} check {check} rel {rel}: expected {exp[:200]} got {got[:200]}"))
         return out
 
+    # ---- Unreal 2: the same matrix on its two optional sections, including answers that go wrong only AFTER a well-formed
+    # prefix (the last record cut short): a section that fails is absent as a whole
+    u2 = [v for v in netprops.valid_cases("unreal2", seed + 11, 400 if tier == "quick" else 4000)
+          if not v.notwf and v.want.startswith("OK") and " M[] R[] " not in v.want and " P[] B[]" not in v.want and v.line.split(" ")[3] in ("ee", "et", "te", "tt")]
+    # (a stray datagram after a complete first one is not a failed section: the listening loop keeps what it has; not in the matrix)
+    U2_OUT = ["valid", "silent", "malformed", "cut"]
+    u2meta = {}
+
+    def u2_section(group, outcome, listens):
+        dgs = [d for d in group if d is not None]
+        if outcome == "valid":
+            return list(group)
+        if outcome == "silent":
+            return [None]
+        if outcome == "malformed" or not dgs:
+            return [b"\xff\xff"]
+        # the section ends at the record that cannot be read: nothing is listened for after it
+        return dgs[:-1] + [dgs[-1][:-1]]
+
+    u2combos = list(itertools.product("ste", "ste", U2_OUT, U2_OUT))
+    for b in u2[: (4 if tier == "quick" else 40)]:
+        seg = b.seg()
+        c0 = b.case()
+        ds = c0.script[0]
+        info, rules, players = ds[:seg[0]], ds[seg[0]:seg[0] + seg[1]], ds[seg[0] + seg[1]:seg[0] + seg[1] + seg[2]]
+        for tr, tp, orr, op in (u2combos if tier == "thorough" else rnd.sample(u2combos, 70)):
+            c = b.case()
+            newds = list(info)
+            if tr != "s":
+                newds += u2_section(rules, orr, True)
+            if not (tr == "e" and orr != "valid") and tp != "s":
+                newds += u2_section(players, op, False)
+            c.script = [newds]
+            c.args[1] = tr + tp
+            c.args[2] = "0"
+            cid = f"{b.id}{tr}{tp}{orr[0]}{op[0]}"
+            cases.append(c.line(cid))
+            u2meta[cid] = (b, tr, tp, orr, op)
+
+    def u2_oracle(cid, impl):
+        b, tr, tp, orr, op = u2meta[cid]
+        got = vlib.result_of(impl)
+        kinds = [d[8:10] for (_, _, d, _) in vlib.sends_of(impl)]
+        rep.count("unreal2-matrix")
+        out = []
+        head, rest = b.want.split(" M[", 1)
+        m, rest = rest.split(" R[", 1)
+        r, rest = rest.split(" P[", 1)
+        pl, bots = rest.split(" B[", 1)
+        rules_ok = tr != "s" and orr == "valid"
+        players_ok = tp != "s" and op == "valid"
+        exp_err = None
+        want01 = tr != "s"
+        want02 = tp != "s"
+        if tr == "e" and orr != "valid":
+            exp_err, want02 = ("timeout" if orr == "silent" else "other"), False
+        elif tp == "e" and op != "valid":
+            exp_err = "timeout" if op == "silent" else "other"
+        if ("01" in kinds) != want01 or ("02" in kinds) != want02:
+            out.append(("toggle-requests:unreal2", f"toggles {tr}{tp} outcomes {orr}/{op}: request kinds on the wire {sorted(set(kinds))}"))
+        if exp_err is not None:
+            ok = got == "ERR PacketReceive" if exp_err == "timeout" else (got.startswith("ERR ") and got not in ("ERR PacketReceive", "ERR PacketSend"))
+            if not ok:
+                out.append(("toggle-enforce:unreal2", f"toggles {tr}{tp} outcomes {orr}/{op}: expected a {exp_err} failure, got {got[:120]}"))
+        else:
+            if not rules_ok:
+                head = head[:-2] + "F}"  # the password flag comes from the rules
+            exp = head + (" M[" + m + " R[" + r if rules_ok else " M[] R[]") + (" P[" + pl + " B[" + bots if players_ok else " P[] B[]")
+            if got != exp:
+                out.append(("toggle-response:unreal2", f"toggles {tr}{tp} outcomes {orr}/{op}: expected {exp[:240]} got {got[:240]}"))
+        return out
+
     # the combinator itself on every error kind the library has: Skip never runs, Try hides EVERY failure, Enforce
     # returns it (the Lean theorems C11_try_fail / C11_enforce_fail quantify over the kind; this ties them to the macro)
     KINDS = ["PacketOverflow", "PacketUnderflow", "PacketBad", "PacketSend", "PacketReceive", "Decompress", "SocketConnect",
@@ -155,6 +228,9 @@ def run(rep, tier, seed, replay=None):
 
     def oracle2(case, impl, model, panic):
         cid = case.split(" ", 1)[0]
+        if cid in u2meta:
+            bad = netprops.crash_oracle(case, impl, model, panic)
+            return bad if bad else u2_oracle(cid, impl)
         if cid in gexp:
             rep.count("combinator-kind")
             return [] if impl == gexp[cid] else [("maybe-gather:" + cid, f"maybe_gather!({cid[3]}, {cid[5:]}) gave {impl}, documented: {gexp[cid]}")]
